@@ -3,10 +3,10 @@ NEXT NextGen
 CONSTANTS
   NV = 1
   MaxStmts = 5
-  MaxDepth = 2
-  MaxComp = 2
-  Kinds = {"asg", "del", "read", "mr", "brk", "try", "while", "if"}
-  HSh <- HShOne
+  MaxDepth = 1
+  MaxComp = 1
+  Kinds = {"asg", "del", "read", "mr", "try"}
+  HSh <- HShStar
   AsVars = FALSE
   MaxWord = 6
   Dump = TRUE
